@@ -78,9 +78,14 @@ class BaseSpec:
     def loop(self, relpath, qual, ordinal, spec):
         self.loops[(relpath, qual, ordinal)] = spec
 
-    def oblige(self, I, name, goal, meta=None, hints=None):
+    def oblige(self, I, name, goal, meta=None, hints=None, skolem=False):
         full = f"{self.cur_fn}/{name}" if self.cur_fn else name
         st = I.st
+        if (skolem or getattr(self, "skolem_goals", False)) and z3.is_quantifier(goal) and goal.is_forall():
+            # validity of (forall x. P x) = validity of P c for a fresh constant c; c then serves as an instantiation hint
+            consts = [fresh(f"sk_{goal.var_name(i_)}", goal.var_sort(i_)) for i_ in range(goal.num_vars())]
+            goal = z3.substitute_vars(goal.body(), *reversed(consts))
+            hints = list(hints or []) + consts
         core_pc = list(st.pc) + st.frame_facts()
         axioms = list(st.h.axioms) + st.class_axioms()
         pc = core_pc + axioms
